@@ -26,10 +26,13 @@ def run(tier, seed):
         plans = [({"CfgIds": '{"c1", "c2", "c3"}', "SigSets": "<- FewSigSets", "MaxRootV": 2, "Cons": "FALSE"}, "a"),
                  ({"CfgIds": '{"c1", "c4"}', "SigSets": "<- AllSigSets", "MaxRootV": 2, "Cons": "TRUE"}, "b"),
                  # two hops: the root keys change at the first one, the second is judged under the new ones
-                 ({"CfgIds": '{"c1", "c2"}', "SigSets": "<- FewSigSets", "MaxRootV": 3, "Cons": "FALSE"}, "c")]
+                 ({"CfgIds": '{"c1", "c2"}', "SigSets": "<- FewSigSets", "MaxRootV": 3, "Cons": "FALSE"}, "c"),
+                 # a hop that keeps the root keys and raises the threshold (c5 -> c3)
+                 ({"CfgIds": '{"c5", "c3"}', "SigSets": "<- FewSigSets", "MaxRootV": 2, "Cons": "FALSE"}, "d")]
     else:
         plans = [({"CfgIds": '{"c1", "c2", "c3"}', "SigSets": "<- FewSigSets", "MaxRootV": 3, "Cons": "FALSE"}, "a"),
-                 ({"CfgIds": '{"c1", "c2", "c3", "c4"}', "SigSets": "<- AllSigSets", "MaxRootV": 2, "Cons": "TRUE"}, "b")]
+                 ({"CfgIds": '{"c1", "c2", "c3", "c4"}', "SigSets": "<- AllSigSets", "MaxRootV": 2, "Cons": "TRUE"}, "b"),
+                 ({"CfgIds": '{"c5", "c3", "c1"}', "SigSets": "<- FewSigSets", "MaxRootV": 3, "Cons": "FALSE"}, "d")]
     for over, tag in plans:
         g, bs = clientlib.generate("MC_RootChain", "MC_RootChain_check.cfg", over, f"c02-gen-{tag}", timeout=1200)
         for i, b in enumerate(bs):
